@@ -313,8 +313,10 @@ func builtinUnescape(input string) string {
 				}
 			}
 		}
-		output = append(output, rune(input[index]))
-		index++
+		// Anything else is copied as it is (B.2.2 step 18), a whole character at a time.
+		chr, width := utf8.DecodeRuneInString(input[index:])
+		output = append(output, chr)
+		index += width
 	}
 	return string(output)
 }
